@@ -55,6 +55,22 @@ var props = map[string]*propSpec{
 		QuickBudget:    50 * time.Second,
 		ThoroughBudget: 15 * time.Minute,
 	},
+	"C04": {
+		Level: "fault_enumeration",
+		Rule: "per baseline (seeded configuration x workload of 1-5 RPCs in assorted phases x schedule) the fault-free run reports its N carrier frames; then each of 6 termination causes (channel Close, cancel / expiry of the opening context, Stop, GracefulStop+Stop, carrier failure) is injected at frame boundary k (thorough: every k in 1..N; quick: a stratified sample) and the run is driven to final quiescence (all timers fired); plus fully random placements; " +
+			"non-trivial = the tunnel ended while at least one RPC was in flight; distinct = distinct schedule digests",
+		Families:       []famPlan{{Family: "teardown", Weight: 3, Enum: true, EnumCauses: 6, EnumQuick: 10}, {Family: "teardown", Weight: 1}},
+		QuickBudget:    55 * time.Second,
+		ThoroughBudget: 20 * time.Minute,
+	},
+	"C14": {
+		Level: "exploration",
+		Rule: "every run ends with a drain to final quiescence (table sizes probed through the verif accessors) and a full shutdown (every tunnel ended, every context cancelled, all timers fired) after which any goroutine started by the library that is still alive is a leak; " +
+			"non-trivial = at least 3 goroutines were alive at once; distinct = distinct schedule digests",
+		Families:       []famPlan{{Family: "teardown", Weight: 2}, {Family: "msgflow", Weight: 2}, {Family: "meta", Weight: 1}},
+		QuickBudget:    50 * time.Second,
+		ThoroughBudget: 15 * time.Minute,
+	},
 	"C13": {
 		Level:          "exploration",
 		Rule:           "every frame of every run is fed to the protocol monitor (appendix A of DESIGN.md); non-trivial = the run carried at least 20 frames; distinct = distinct schedule digests",
